@@ -192,6 +192,42 @@ def run(ctx):
             viol += 1
             if viol <= 6:
                 ctx.violation(what, {"query": q, "graph": {str(k): v for k, v in g.items()}, "expected": exp, "kind": kind})
+    # ---- nodes that are values of other kinds: strings that agree up to an embedded NUL byte, or in a prefix, or
+    # except for a high byte; sequences that differ late; constants that differ in their domain only
+    ENCODINGS = [("nul-strings", lambda i: '"n\\x00%c"' % (97 + i), lambda i: ("s", (b"n\x00" + bytes([97 + i])).hex())),
+                 ("prefix-strings", lambda i: '"%s"' % ("a" * (i + 1)), lambda i: ("s", (b"a" * (i + 1)).hex())),
+                 ("high-bytes", lambda i: '"\\x%02x"' % (0x7e + i), lambda i: ("s", bytes([0x7e + i]).hex())),
+                 ("long-sequences", lambda i: "[1, 1, 1, 1, 1, 1, 1, 1, 1, %d]" % i, lambda i: ("q", i)),
+                 ("domains", lambda i: ["1", "true", "DW_AT_sibling", "DW_TAG_array_type", "DW_FORM_addr", "T_CONST", "0 0 aset type"][i], lambda i: ("c", i))]
+    vgraphs = [{0: [1, 2], 1: [3], 2: [3], 3: [0]}, {0: [1], 1: [2], 2: [0, 3], 3: [3]}, {0: [0, 1], 1: [2], 2: [], 3: []}, {0: [1, 2, 3], 1: [], 2: [4], 3: [4], 4: [0]}]
+    vq, vmeta = [], []
+    for encn, lit, key in ENCODINGS:
+        for g in vgraphs:
+            body = "(|N| (%s))" % ", ".join("?(N %s ?eq) %s" % (lit(a), lit(b)) for a in sorted(g) for b in g[a])
+            for form, plus in (("%s %s*", False), ("%s %s+", True), ("[%s %s*] length", False), ("(%s, %s) %s*", False)):
+                if form.count("%s") == 3:
+                    q = form % (lit(0), lit(3), body)
+                    exp = sorted(reach(g, [0], False) + reach(g, [3], False))
+                else:
+                    q = form % (lit(0), body)
+                    exp = reach(g, [0], plus)
+                vq.append(q)
+                vmeta.append((encn, g, q, exp, form))
+    for (encn, g, q, exp, form), r in zip(vmeta, zw.run_cases([zw.enc(q, t=3, max=400) for q in vq])):
+        evaluations += 1
+        if r.crash or r.hard:
+            got = "%s" % (r.crash or r.hard)
+        elif form.startswith("["):
+            got = [int(r.results[0][0]["v"])] if r.results else None
+            exp = [len(exp)]
+        else:
+            got = len(r.results)
+            exp = len(exp)
+        if got != exp:
+            viol += 1
+            if viol <= 6:
+                ctx.violation("`%s` yields %s; the reachable set (each value once per input) has %s" % (q, got, exp),
+                              {"query": q, "graph": {str(k): v for k, v in g.items()}, "expected": exp, "kind": "values/" + encn})
     # ---- closures over DWARF values: units and DIEs are reached along imports, nested and repeated; two
     # routes to one DIE are two values (the model dw/Forest.v counts the routes), two units are two values
     # also when they start at the same offset (members of an archive)
@@ -283,7 +319,7 @@ def run(ctx):
         "evaluations": evaluations + stats["evaluations"] + ndw,
         "dwarf_closure_counts": ndw,
         "distinct_nontrivial": len(nontrivial),
-        "rule": "closure bodies generated from graphs (%d graphs: %s 3-node graphs with out-degree <= 2, plus 5-cycle, diamond chain, tree with back edges, self-loop, 2-cycle) in five encodings (`,` in the body, captured sequence + elem, let, if-chain, `||`), every start node, `*` and `+`, several inputs in a row, E E* vs E+, E? vs (E,), stacked postfix operators (E+?, (E+,), E*?, E?*, E?+), the node carried below 1-6 other values, or (acyclic graphs) inside a closure value, nesting ((E*)*, (E+)*, (E*)+); expected = reachability computed on the graph, each node exactly once per input; non-trivial = >= 3 reachable nodes and a multi-successor node; 3 s budget per query; programs also compared with the engine model and the specification; + closures over DWARF values on generated forests (nested, repeated and diamond imports of partial units) and on archives of them: unit/root/child closures from the Dwarf value, child* per unit, parent* per DIE against the number of units and routes the forest model counts" % (len(G), "all" if not quick else "a sample of"),
+        "rule": "closure bodies generated from graphs (%d graphs: %s 3-node graphs with out-degree <= 2, plus 5-cycle, diamond chain, tree with back edges, self-loop, 2-cycle) in five encodings (`,` in the body, captured sequence + elem, let, if-chain, `||`), every start node, `*` and `+`, several inputs in a row, E E* vs E+, E? vs (E,), stacked postfix operators (E+?, (E+,), E*?, E?*, E?+), the node carried below 1-6 other values, or (acyclic graphs) inside a closure value, nesting ((E*)*, (E+)*, (E*)+); expected = reachability computed on the graph, each node exactly once per input; non-trivial = >= 3 reachable nodes and a multi-successor node; 3 s budget per query; programs also compared with the engine model and the specification; + graphs whose nodes are strings that agree up to an embedded NUL / in a prefix / except for a high byte, sequences that differ in their tenth element, constants that differ in their domain only; + closures over DWARF values on generated forests (nested, repeated and diamond imports of partial units) and on archives of them: unit/root/child closures from the Dwarf value, child* per unit, parent* per DIE against the number of units and routes the forest model counts" % (len(G), "all" if not quick else "a sample of"),
         "samples": [cases[0][0], cases[7][0], cases[-1][0]],
         "groups": dict(kinds), "violations_found": viol,
         "traces_validated_against_impl": stats["evaluations"],
